@@ -189,7 +189,7 @@ Section Tok.
     eapply (L_single T_SLASH); [reflexivity|exact F].
   Qed.
 
-  Lemma des_string p l : at_text rs p (34 :: l) -> designates rs (mkTok T_STRING l (fst p) (snd p)).
+  Lemma des_string p l o : at_text rs p (34 :: l) -> designates rs (mkTokO T_STRING l (fst p) (snd p) o).
   Proof.
     intros A. unfold designates, is_eof. cbn [ttype tlit tline tpos].
     change (str_eqb T_STRING T_EOF) with false.
@@ -200,7 +200,7 @@ Section Tok.
 
   Lemma L_string n t st' :
     c = 34 ->
-    (do (l, st1) <- read_string n st; finish (mkTok T_STRING l (line st) (idx st)) st1) = OK (t, st') ->
+    (do (l, st1) <- read_string n st; finish (mkTokO T_STRING l (line st) (idx st) 2) st1) = OK (t, st') ->
     designates rs t /\ cur rs st'.
   Proof.
     pose proof HcL as Hc.
@@ -210,7 +210,7 @@ Section Tok.
       as (txt' & E & V1).
     destruct (finish_cur _ _ _ _ _ (cur_of_view _ _ _ _ V1) F) as [-> C'].
     split; [|exact C'].
-    apply (des_string (line st, idx st)).
+    apply (des_string (line st, idx st) _ 2).
     eapply view_at_text; [exact V|discriminate|]. rewrite H34, E. apply pfx_cons. exists txt'. reflexivity.
   Qed.
 End Tok.
@@ -449,7 +449,7 @@ Proof.
   assert (Pk1 : peeks (read_char (set_ch st1 34)) = []).
   { rewrite (proj1 (read_char_aux _)). cbn [set_ch peeks]. unfold st1, skip_bytes. cbn [peeks]. exact Hpk. }
   rewrite Pk1 in Pk2.
-  set (stt := mkTok T_STRING body (line st1) (idx st1)) in *.
+  set (stt := mkTokO T_STRING body (line st1) (idx st1) (2 + 2 * N.of_nat (length (d0 ++ [q])))) in *.
   set (ct := mkTok T_CLOSE_LONG_STRING (map b2n d0) (line st2) (idx st2)) in *.
   destruct (finish_vcur rs _ _ _ _ (vcur_push rs st2 [stt; ct] VC) F) as [-> C'].
   pose proof (finish_peeks _ _ _ _ F) as Pk3.
@@ -460,7 +460,7 @@ Proof.
     exists (dec_all tl). cbn [app]. rewrite <- !app_assoc. reflexivity.
   - rewrite Pk3. unfold push_tokens, set_peeks. cbn [peeks]. rewrite Pk2. cbn [app].
     constructor; [|constructor; [|constructor]].
-    + apply (des_string rs (line st1, idx st1)).
+    + apply (des_string rs (line st1, idx st1) _ _).
       change (line st1, idx st1) with (line (set_ch st1 34), idx (set_ch st1 34)).
       eapply view_at_text; [exact V1|discriminate|]. apply pfx_cons. exact Pb.
     + apply des_close. exact CP.
